@@ -61,7 +61,7 @@ CLAIMS = {
         "equally sized entries, at most MaxInuse/owned + one entry of bytes; Puts never fail, the key just written is present; n partitions within their share hold at most "
         "max(n, MaxKeys) keys; a background pass never removes a key accessed within the idle window and removes a sampled key idle past it; a read is an access (C10_read_keeps_alive). Executed: MaxKeys AND MaxInuse together with a share of one key / one entry (D51 fixed: the second limit was judged on stale numbers and the Put failed),  grid MaxKeys x LRUSamples x "
         "key streams and MaxInuse on 1- and 3-member clusters with per-partition Stats and key sets after EVERY Put (victims reconstructed and replayed by the model), idle scenario. Idle eviction also over fragments of several tables (keys in read-only tables kept alive by reads only).",
-   note=TB + "'eventually disappears' is the sampler's fairness (an oracle in the model): D52, an open known finding reproduced on every run, shows the real sampler never reaches older storage tables once the table being written holds 19 keys; ownership is stable during a scenario.",
+   note=TB + "'eventually disappears' is the sampler's fairness (an oracle in the model); D52 (the real sampler never reached older storage tables once the table being written held 19 keys) was exhibited by a directed scenario that runs on every run, and repaired; ownership is stable during a scenario.",
    ref="DESIGN.md 9 C10"),
  "C04": dict(
    text='Theorems over Model/DMap.v (owner-side semantics of every mutating operation with synchronous replication): for EVERY operation sequence, routing, replica count and clock readings, after each operation every backup copy equals the primary copy in value, expiry and timestamp, is absent exactly when the primary copy is absent, and no other member holds a copy (C04_mirror); hence single-copy reads agree. The model is executed against real clusters (N,R) in {(3,2),(3,3),(2,2)} on random sequences through 7 client paths with a white-box dump of all copies after every operation, on every run. Also: 2-4 clients overlapping on 1-2 keys (incl. a Lock that waits while the holder renews and drops its lease), copies compared at quiescence.',
